@@ -17,9 +17,12 @@ import (
 	"fmt"
 	"math"
 	"os"
+	"os/exec"
+	"path/filepath"
 	"sort"
 	"strconv"
 	"strings"
+	"sync"
 	"time"
 
 	"github.com/tilinna/clock"
@@ -100,9 +103,36 @@ func gen(args []string) {
 				g.cfg[ty] = v
 			}
 		}
-		for _, ty := range types {
-			head = append(head, hx.I(g.cfg[ty]))
-			st.Hit(fmt.Sprintf("interval[%s]=%d", ty, g.cfg[ty]))
+		if r.Chance(1, 4) {
+			// through the start-up configuration: a main interval and per-type overrides, each possibly absent;
+			// drawn from a small family so that the dump binary runs a bounded number of times
+			fam := []int64{-1, 0, 1_000_000_000, 300_000_000_000}
+			optTok := func(present bool, v int64) string {
+				if !present {
+					return "-"
+				}
+				return hx.I(v)
+			}
+			mainSet, mainV := r.Chance(2, 3), hx.Pick(r, fam)
+			head = append(head, "cfg", optTok(mainSet, mainV))
+			for _, ty := range types {
+				set, v := r.Chance(1, 2), hx.Pick(r, fam)
+				head = append(head, optTok(set, v))
+				switch {
+				case set:
+					g.cfg[ty] = v
+				case mainSet:
+					g.cfg[ty] = mainV
+				default:
+					g.cfg[ty] = int64(gostatsd.DefaultExpiryInterval)
+				}
+			}
+			st.Hit("via-start-up-config")
+		} else {
+			for _, ty := range types {
+				head = append(head, hx.I(g.cfg[ty]))
+				st.Hit(fmt.Sprintf("interval[%s]=%d", ty, g.cfg[ty]))
+			}
 		}
 		// series per type
 		pool := map[string][]string{}
@@ -256,7 +286,9 @@ type pending struct {
 	seen map[string]bool
 }
 
-func newPending() *pending { return &pending{mm: gostatsd.NewMetricMap(false), seen: map[string]bool{}} }
+func newPending() *pending {
+	return &pending{mm: gostatsd.NewMetricMap(false), seen: map[string]bool{}}
+}
 
 func parseMem(s string) map[string]struct{} {
 	m := map[string]struct{}{}
@@ -364,6 +396,40 @@ func renderView(m *gostatsd.MetricMap) string {
 	return strings.Join(items, " ; ")
 }
 
+var cfgCache sync.Map
+
+// resolveConfig runs `gostatsd-verif --verif-dump-config` with the flags of the case (`-` = flag absent).
+func resolveConfig(toks []string) (ic, it, ig, is int64, err error) {
+	key := strings.Join(toks, " ")
+	if v, ok := cfgCache.Load(key); ok {
+		r := v.([4]int64)
+		return r[0], r[1], r[2], r[3], nil
+	}
+	exe, _ := os.Executable()
+	bin := filepath.Join(filepath.Dir(exe), "gostatsd-verif")
+	args := []string{"--verif-dump-config", "--backends", "stdout"}
+	names := []string{"expiry-interval", "expiry-interval-counter", "expiry-interval-timer", "expiry-interval-gauge", "expiry-interval-set"}
+	for i, t := range toks {
+		if t != "-" {
+			args = append(args, fmt.Sprintf("--%s=%sns", names[i], t))
+		}
+	}
+	outB, e := exec.Command(bin, args...).CombinedOutput()
+	if e != nil {
+		return 0, 0, 0, 0, fmt.Errorf("%v: %s", e, string(outB))
+	}
+	for _, l := range strings.Split(string(outB), "\n") {
+		if strings.HasPrefix(l, "expiry ") {
+			if _, e := fmt.Sscanf(l, "expiry counter=%d timer=%d gauge=%d set=%d", &ic, &it, &ig, &is); e != nil {
+				return 0, 0, 0, 0, e
+			}
+			cfgCache.Store(key, [4]int64{ic, it, ig, is})
+			return ic, it, ig, is, nil
+		}
+	}
+	return 0, 0, 0, 0, fmt.Errorf("no expiry line in: %s", string(outB))
+}
+
 func runOne(line string) (out string) {
 	defer func() {
 		if e := recover(); e != nil {
@@ -371,10 +437,20 @@ func runOne(line string) (out string) {
 		}
 	}()
 	parts := hx.SplitBy(hx.Tokens(line), ";")
-	if len(parts) == 0 || len(parts[0]) != 4 {
+	var ic, it, ig, is int64
+	switch {
+	case len(parts) > 0 && len(parts[0]) == 4:
+		ic, it, ig, is = hx.MustInt(parts[0][0]), hx.MustInt(parts[0][1]), hx.MustInt(parts[0][2]), hx.MustInt(parts[0][3])
+	case len(parts) > 0 && len(parts[0]) == 6 && parts[0][0] == "cfg":
+		// the intervals come out of the real start-up configuration code (cmd/gostatsd, verif-tagged dump)
+		var err error
+		ic, it, ig, is, err = resolveConfig(parts[0][1:])
+		if err != nil {
+			return "CONFIG_ERROR " + err.Error()
+		}
+	default:
 		return "BAD_CASE"
 	}
-	ic, it, ig, is := hx.MustInt(parts[0][0]), hx.MustInt(parts[0][1]), hx.MustInt(parts[0][2]), hx.MustInt(parts[0][3])
 	// NewMetricAggregator(percentThresholds, counter, gauge, set, timer, disabled, histogramLimit)
 	aggr := statsd.NewMetricAggregator([]float64{90}, time.Duration(ic), time.Duration(ig), time.Duration(is), time.Duration(it),
 		gostatsd.TimerSubtypes{}, math.MaxUint32)
